@@ -151,6 +151,9 @@ func (d *dfs) judge(x *vsched.Exec, obs any, prefix []int) {
 			r.Samples = append(r.Samples, map[string]any{"scenario": d.s.Name, "choices": compact(x.Choices(len(x.Points))), "deviations": x.Cost(), "steps": x.Steps(), "outcome": clip(o, 600)})
 		}
 		r.Outcomes[k]++
+		if os.Getenv("VERIF_DEBUG") != "" && r.Outcomes[k] == 1 {
+			fmt.Fprintf(RealStderr, "outcome %s [%s] dev=%d: %s\n", k, d.s.Name, x.Cost(), clip(o, 400))
+		}
 	}
 	for _, f := range fs {
 		r.NFindings++
